@@ -278,6 +278,7 @@ type endpoint struct { // one receiving endpoint
 	playing  atomic.Bool
 	closing  atomic.Bool
 	stalled  atomic.Int32 // pacing gave up waiting for this endpoint that many times
+	qfull    atomic.Int64 // write-queue-full signals attributed to this endpoint (signalled losses)
 	keepLog  bool         // tamper scenarios: keep (pt, seq, counter) of every delivery
 	logMu    sync.Mutex
 	log      []tdel
@@ -390,6 +391,7 @@ func (e *endpoint) onRTCP(p rtcp.Packet) {
 
 type scenRun struct {
 	sc      scenario
+	started time.Time
 	clear   *clearMon
 	tam     *tamperer
 	ts      *rig.TestServer
@@ -406,7 +408,8 @@ type scenRun struct {
 	srvDec1 atomic.Value
 	srvEP   endpoint // histogram of the server's decode errors
 	clMu    sync.Mutex
-	closes  []string // reasons of the server's connection / session closes
+	closes  []string     // reasons of the server's connection / session closes
+	sendErr atomic.Value // first error returned by a write during the drain (the sender ended)
 	tagMu   sync.Mutex
 	connTag map[*gortsplib.ServerConn]string
 	sessTag map[*gortsplib.ServerSession]string
@@ -427,9 +430,26 @@ func (sr *scenRun) fail(key, what string, extra map[string]any) {
 func (sr *scenRun) signalled(e *endpoint, err error) error {
 	if err != nil && strings.Contains(err.Error(), "queue is full") {
 		e.rd.QueueFull()
+		e.qfull.Add(1)
 		run.Count("write-queue-full-signals", 1)
 	}
 	return err
+}
+
+// sessionEnded: a session that ends by itself under an untampered load. When the reason is one
+// of the library's wall-clock watchdogs and the scheduler canary saw the machine stall, the
+// case is inconclusive; otherwise it is reported.
+func (sr *scenRun) sessionEnded(who, reason string) {
+	sr.clMu.Lock()
+	closes := strings.Join(sr.closes, "; ")
+	sr.clMu.Unlock()
+	late := canary.WorstSince(sr.started)
+	if (strings.Contains(reason+closes, "timeout") || strings.Contains(reason+closes, "timed out")) && late > 250*time.Millisecond {
+		run.Inconclusive("session ended by a wall-clock watchdog while the machine was stalled")
+		return
+	}
+	sr.fail("interop/"+sr.sc.Transport+"/"+sr.sc.Kind+"/session-ended-by-error",
+		fmt.Sprintf("%s ended during the load: %s (server: %s; worst scheduler lateness %v)", who, reason, closes, late), nil)
 }
 
 func vlibTrunc(s string) string {
@@ -570,7 +590,11 @@ func (sr *scenRun) drain(s *sender, r *rand.Rand, write func(*rtp.Packet) error,
 	for i := 0; i < maxN; i++ {
 		p := s.build(r, 60)
 		idx := s.f.Forward(p)
-		s.f.Done(idx, write(p))
+		err := write(p)
+		s.f.Done(idx, err)
+		if err != nil && !strings.Contains(err.Error(), "queue is full") {
+			sr.sendErr.CompareAndSwap(nil, err.Error())
+		}
 		time.Sleep(time.Millisecond)
 		all := true
 		for _, e := range eps {
@@ -606,7 +630,7 @@ func descWithBack(formats []int, back bool) *description.Session {
 func runScenario(sc scenario) {
 	evals.Add(1)
 	r := rand.New(rand.NewSource(sc.Seed))
-	sr := &scenRun{sc: sc, clear: newClearMon(), appSent: map[uint32][]byte{},
+	sr := &scenRun{sc: sc, started: time.Now(), clear: newClearMon(), appSent: map[uint32][]byte{},
 		connTag: map[*gortsplib.ServerConn]string{}, sessTag: map[*gortsplib.ServerSession]string{}}
 	if sc.Tamper {
 		sr.tam = newTamperer(sc.Seed ^ 0x7A)
@@ -627,7 +651,8 @@ func runScenario(sc scenario) {
 	}
 	opts := rig.ServerOpts{
 		UDP: true, Multicast: sc.Transport == "mcast", TLS: !sc.Plain, HandlerSet: "full", NoLog: true, Desc: desc, NoStream: sc.Kind == "record",
-		ReadTimeout: 90 * time.Second, WriteTimeout: 90 * time.Second,
+		// the library's wall-clock watchdogs are not what this property is about: far away
+		ReadTimeout: 5 * time.Minute, WriteTimeout: 5 * time.Minute, IdleTimeout: 20 * time.Minute,
 		WriteQueueSize: 1024, SenderReportPeriod: 200 * time.Millisecond, ReceiverReportPeriod: 200 * time.Millisecond,
 		OnEvent: func(e rig.Event) {
 			switch e.Kind {
@@ -654,6 +679,7 @@ func runScenario(sc scenario) {
 					for _, ep := range sr.eps {
 						if "verif:"+ep.name == t {
 							ep.rd.QueueFull()
+							ep.qfull.Add(1)
 						}
 					}
 					sr.emu.Unlock()
@@ -789,7 +815,7 @@ func runScenario(sc scenario) {
 	// --- endpoints
 	newReader := func(i int) *endpoint {
 		ep := &endpoint{name: fmt.Sprintf("%s-r%d", sc.Name, i), apps: map[uint32][]byte{}, keepLog: sc.Tamper}
-		o := rig.ClientOpts{Name: ep.name, Proto: sc.Transport, HeldEvery: 97, ReadTimeout: 20 * time.Minute, WriteTimeout: 90 * time.Second, WriteQueueSize: 1024}
+		o := rig.ClientOpts{Name: ep.name, Proto: sc.Transport, HeldEvery: 97, ReadTimeout: 20 * time.Minute, WriteTimeout: 5 * time.Minute, WriteQueueSize: 1024}
 		o.Mutate = sr.clientMutate(ep, sc.Kind == "play", func(c *gortsplib.Client) {
 			c.RequestBackChannels = back
 			if sc.Transport == "mcast" {
@@ -848,7 +874,7 @@ func runScenario(sc scenario) {
 				pm.Profile = headers.TransportProfileSAVP
 			}
 		}
-		pub, err = rig.StartPublisher(ts, pdesc, rig.ClientOpts{Name: "pub", Proto: sc.Transport, Path: "/pub", WriteQueueSize: 1024, ReadTimeout: 90 * time.Second, WriteTimeout: 90 * time.Second, Mutate: sr.clientMutate(nil, false, nil)})
+		pub, err = rig.StartPublisher(ts, pdesc, rig.ClientOpts{Name: "pub", Proto: sc.Transport, Path: "/pub", WriteQueueSize: 1024, ReadTimeout: 20 * time.Minute, WriteTimeout: 5 * time.Minute, Mutate: sr.clientMutate(nil, false, nil)})
 		if err != nil {
 			sr.fail("interop/"+sc.Transport+"/publisher-start-failed", err.Error(), nil)
 			return
@@ -968,7 +994,7 @@ func runScenario(sc scenario) {
 	var drainEps []*endpoint
 	for _, e := range sr.activeReaders() {
 		if e.pc != nil && e.pc.Died() != nil {
-			sr.fail("interop/"+sc.Transport+"/reader-ended-by-error", fmt.Sprintf("reader %s ended: %v", e.name, e.pc.Died()), nil)
+			sr.sessionEnded("reader "+e.name, e.pc.Died().Error())
 			continue
 		}
 		drainEps = append(drainEps, e)
@@ -977,6 +1003,11 @@ func runScenario(sc scenario) {
 		dr := rand.New(rand.NewSource(sc.Seed*17 + int64(i)))
 		for _, e := range sr.drain(s, dr, write(s), drainEps, 1500) {
 			d1, _ := e.decFirst.Load().(string)
+			if se, _ := sr.sendErr.Load().(string); se != "" {
+				// the sending side ended (writes fail): not a verdict about the receiver
+				sr.sessionEnded("sender", se)
+				continue
+			}
 			key := "interop/" + sc.Transport + "/" + sc.Kind + "/receiver-stopped-receiving"
 			if sc.Tamper {
 				side := "client"
